@@ -44,6 +44,24 @@ example : ∃ st', evalImportSet 4 demoState (.prefix (.only (.direct demoLib no
     (by simp [S.denote, exportsOf, demoState, demoLib, libLookup])
   exact ⟨st', h⟩
 
+/-- The same for EVERY library and every state (the library may have to be read from a file and
+its body evaluated, or fail to load): the evaluator's result for an import-set term is the result
+of importing its library directly, with the term's operators `S.transform s` applied to the export
+list — values untouched, so each name is bound to the value the library exports under the original
+name — and errors and the final state passed through unchanged. `S.denote` is `S.transform`
+applied to the library's export list. -/
+theorem importSet_factors (s : ImportSet) (k : Nat) (st : State) (ex : LibName → Option S.Bindings) :
+    (evalImportSet (k + S.depth s) st s =
+      match evalImportSet k st (.direct (S.leaf s) (S.leafLoc s)) with
+      | (.ok defs, st') => (.ok (S.transform s defs), st')
+      | (.error e, st') => (.error e, st')) ∧
+    S.denote s ex = (ex (S.leaf s)).map (S.transform s) :=
+  ⟨Interp.importSet_factors s k st, denote_eq_transform s ex⟩
+
+example : S.transform (.prefix (.except (.direct demoLib none) ["a"]) "x-")
+    [("a", .num (.int 1)), ("b", .num (.int 2))] = [("x-b", .num (.int 2))] := by
+  simp [S.transform]
+
 /-! ## 2. rename is simultaneous; only sees the new names -/
 
 /-- `(rename S (a b) (b a))` SWAPS the two names: every binding of `S` keeps its value, the one
